@@ -43,6 +43,27 @@ fn main() {
             _ => usage(),
         }
     }
+    if id == "C18" {
+        if let Some(p) = &args.replay {
+            if p.extension().is_some_and(|e| e == "yml") {
+                // a document found by the byte-level fuzz target
+                vcore::engine::install_quiet_panic_hook();
+                let text = std::fs::read_to_string(p).expect("replay file");
+                match vcore::fuzzdec::run_c18_text(&text) {
+                    None => {
+                        println!("REPLAY property=C18 held");
+                        std::process::exit(0)
+                    }
+                    Some(f) => {
+                        println!("VIOLATION property=C18 replay={}", p.display());
+                        println!("  signature: {}", f.sig);
+                        println!("  detail: {}", f.msg);
+                        std::process::exit(1)
+                    }
+                }
+            }
+        }
+    }
     let code = match id {
         "C01" => drive::<vcore::c01::C01>(&args),
         "C02" => drive::<vcore::c02::C02>(&args),
